@@ -37,6 +37,7 @@ def run(ctx):
         prog = ctx.prog(config)
         # ---- a
         ec = chunk_end_function(prog)
+        FIN = finishers(prog)
 
         class Reset(FactRule):
             name = 'R6.buzhash-reset'
@@ -50,7 +51,7 @@ def run(ctx):
                 n = callee_name(call)
                 if c2.fn is s.fn and n == 'buzhash_reset':
                     ts = ts | frozenset(['reset'])
-                if c2.fn is s.fn and n == 'index_finish_chunk':
+                if c2.fn is s.fn and n in FIN:
                     ts = ts | frozenset(['finished'])
                 return ts
 
@@ -141,7 +142,7 @@ def run(ctx):
                     continue
                 d = l - r if a.op in ('>=', '>') else r - l
                 if 'zck->chunk_auto_max' in (l.t.keys() | r.t.keys()):
-                    if d == Lin({'zck->comp.dc_data_size': 1, 'i': 1, 'zck->chunk_auto_max': -1}) and a.op in ('>=', '<'):
+                    if d == Lin({'zck->comp.dc_data_size': 1, 'i': 1, 'zck->chunk_auto_max': -1}) and a.op in ('>=', '<='):
                         canonical = True
                     else:
                         derived.append(show(a))
@@ -158,12 +159,32 @@ def run(ctx):
         auto_bounds(ck, prog, config, 'C16-e')
 
 
+def finishers(prog):
+    """Names of the functions from which index_finish_chunk is reachable inside comp.c without going through
+    the chunk-end function itself: calling one of them finishes the chunk."""
+    fin = set(['index_finish_chunk'])
+    changed = True
+    cg = prog.callgraph()
+    while changed:
+        changed = False
+        for q, sites in cg.items():
+            f = prog.funcs[q]
+            if f.name in fin or not f.static or not f.unit.endswith('comp/comp.c'):
+                continue
+            if any(t.name in fin for c, fs, exs in sites for t in fs):
+                fin.add(f.name)
+                changed = True
+    return fin
+
+
 def chunk_end_function(prog):
     """The function that finishes a chunk on behalf of zck_end_chunk(): reachable from it (or itself), calls
-    the end_cchunk backend slot and index_finish_chunk."""
+    the end_cchunk backend slot and (possibly through a static helper) index_finish_chunk."""
     from ..frontend import AnalysisBroken
+    from ..ir import callee_field
     root = prog.need_func('zck_end_chunk')
     seen, ext = prog.reachable_calls([root])
+    fin = finishers(prog)
     cands = []
     for q in seen:
         f = prog.funcs[q]
@@ -171,10 +192,9 @@ def chunk_end_function(prog):
         for ex in all_exprs(f):
             for c in calls_in(ex):
                 names.add(callee_name(c) or '')
-                from ..ir import callee_field
                 if callee_field(c):
                     names.add('slot:' + callee_field(c))
-        if 'index_finish_chunk' in names and 'slot:end_cchunk' in names and f.name != 'comp_init':
+        if names & fin and 'slot:end_cchunk' in names and f.name != 'comp_init':
             cands.append(f)
     if len(cands) != 1:
         raise AnalysisBroken('chunk-end function not identified uniquely below zck_end_chunk: %s' % [f.name for f in cands])
